@@ -46,6 +46,23 @@ func finalFrame(id int16) *frame.Frame {
 	return frame.NewFrame(primitive.ProtocolVersionDse2, id, &message.VoidResult{})
 }
 
+// finalFrameV: the forms a final response takes - a plain result, an error, the last page of a continuous-paging
+// response without and with a paging state (the latter when the server stops at max_pages).
+func finalFrameV(id int16, pageNo int32, variant int) *frame.Frame {
+	switch ((variant % 4) + 4) % 4 {
+	case 0:
+		return finalFrame(id)
+	case 1:
+		return frame.NewFrame(primitive.ProtocolVersionDse2, id, &message.Unavailable{ErrorMessage: "u", Consistency: primitive.ConsistencyLevelOne, Required: 1, Alive: 0})
+	case 2:
+		return pageFrame(id, pageNo+1, true)
+	default:
+		f := pageFrame(id, pageNo+1, true)
+		f.Body.Message.(*message.RowsResult).Metadata.PagingState = []byte{0xca, 0xfe}
+		return f
+	}
+}
+
 func pageFrame(id int16, pageNo int32, last bool) *frame.Frame {
 	return frame.NewFrame(primitive.ProtocolVersionDse2, id, &message.RowsResult{Metadata: &message.RowsMetadata{ColumnCount: 0, ContinuousPageNumber: pageNo, LastContinuousPage: last}})
 }
@@ -109,10 +126,13 @@ func c09Run(n int, hist []c09Act) (fail string, interesting bool) {
 			req, known := unanswered[a.Id]
 			var f *frame.Frame
 			if a.Kind == "final" {
-				f = finalFrame(a.Id)
+				f = finalFrameV(a.Id, pages[a.Id], i+int(a.Id)+int(pages[a.Id]))
 			} else {
 				pages[a.Id]++
 				f = pageFrame(a.Id, pages[a.Id], false)
+				if (i+int(a.Id))%2 == 0 {
+					f.Body.Message.(*message.RowsResult).Metadata.PagingState = []byte{byte(pages[a.Id])}
+				}
 			}
 			err := h.Deliver(f)
 			if !known {
@@ -159,7 +179,7 @@ func c09Run(n int, hist []c09Act) (fail string, interesting bool) {
 		case "drain":
 			// answer everything, then exactly N managed sends must succeed and the N+1-th be refused
 			for id := range unanswered {
-				if err := h.Deliver(finalFrame(id)); err != nil {
+				if err := h.Deliver(finalFrameV(id, pages[id], i+int(id))); err != nil {
 					return step(i, "drain: final response for %d rejected: %v", id, err), true
 				}
 				delete(unanswered, id)
@@ -184,7 +204,7 @@ func c09Run(n int, hist []c09Act) (fail string, interesting bool) {
 				return step(i, "send number %d accepted with limit %d (stream id %d)", n+1, n, f.Header.StreamId), true
 			}
 			for id := range seen {
-				if err := h.Deliver(finalFrame(id)); err != nil {
+				if err := h.Deliver(finalFrameV(id, 0, i+int(id)+1)); err != nil {
 					return step(i, "drain: final response for %d rejected: %v", id, err), true
 				}
 			}
@@ -407,7 +427,7 @@ func c09Concurrent(rt *rapid.T) {
 		defer close(done)
 		for id := range accepted {
 			atomic.AddInt32(&counters[idx(id)], -1) // decremented BEFORE the final response is delivered
-			if err := h.Deliver(finalFrame(id)); err != nil {
+			if err := h.Deliver(finalFrameV(id, 0, int(id))); err != nil {
 				violation.Store(fmt.Sprintf("final response for accepted stream id %d rejected: %v", id, err))
 			}
 		}
